@@ -23,7 +23,7 @@ def plan(tier, seed):
     for spec, variant, nq, nt in table:
         for n in ([nq] if tier == "quick" else sorted({nq, nt})):
             Ls = CK.lengths(spec, n, variant)
-            for L in (Ls[:1] if tier == "quick" else Ls):
+            for L in (Ls[:2] if tier == "quick" else Ls):
                 for B in ([1] if tier == "quick" else [1, 2]):
                     if B == 2 and n > nq:
                         continue
